@@ -67,4 +67,32 @@ def handleC11 (toks : List String) : String :=
       | _ => "bad-op"
   | _ => "bad-op"
 
+
+/-! `C11F <k> <C11 op>`: the same log fetched by the controller's manager client while the `k`-th query to the DB manager
+    fails.  The client asks once for the objective (first strategy) and once per additional metric (the other strategies):
+    a failing query must fail the whole read (no partial log, so no verdict from a partial log). -/
+def c11Queries (toks : List String) : Nat :=
+  match toks with
+  | n :: _ => match n.toNat? with | some ns => if ns == 0 then 1 else ns | none => 1
+  | _ => 1
+
+def handleC11F (toks : List String) : String :=
+  match toks with
+  | k :: rest =>
+    match k.toNat? with
+    | some kk => if kk < c11Queries rest then "err-manager-client" else handleC11 rest
+    | none => "bad-op"
+  | _ => "bad-op"
+
+def oracleLineC11F (toks out : List String) : String :=
+  match toks with
+  | k :: rest =>
+    match k.toNat? with
+    | some kk =>
+      if kk < c11Queries rest then
+        (if out == ["err-manager-client"] then "pass" else "fail observation-log-read-did-not-fail-although-a-query-failed")
+      else oracleLineC11 rest out
+    | none => "bad-op"
+  | _ => "bad-op"
+
 end Katib.Drv
